@@ -22,7 +22,7 @@ def runWith (q : SemQuery) (A B : Table) (jm : JoinMap) : RunResult :=
 theorem run_unfold (q : SemQuery) (A B : Table) (hg : q.groupBy = none)
     (hjb : ∀ js, q.join = some js → joinBError js.rhs B = none) :
     ∃ jm, run q A B = runWith q A B jm ∧
-      ∀ js, q.join = some js → (jm.maxLen = maxWidth B ∧
+      ∀ js, q.join = some js → (jm.maxLen = nullWidth js B ∧
         ∀ key, jm.get key = (partnersSpec js.rhs B key).map (fun p => (p.1, p.2.length, p.2))) := by
   cases hj : q.join with
   | none =>
@@ -34,10 +34,11 @@ theorem run_unfold (q : SemQuery) (A B : Table) (hg : q.groupBy = none)
     | ok p => obtain ⟨st, n⟩ := p; simp
   | some js =>
     obtain ⟨jm, h1, h2, h3⟩ := joinMap_build_ok js.rhs B (hjb js hj)
-    refine ⟨jm, ?_, fun js' h => by cases h; exact ⟨h2, h3⟩⟩
+    refine ⟨jm.widen js.nullWidth, ?_, fun js' h => by
+      cases h; exact ⟨by simp only [JoinMap.widen, nullWidth, h2], h3⟩⟩
     unfold run runWith
-    simp only [hg, hj, Option.isSome_none, Bool.false_and, Bool.false_eq_true, if_false, h1]
-    cases h : mainLoop q jm A 0 { chain := buildChain q {} } with
+    simp only [hg, hj, Option.isSome_none, Bool.false_and, Bool.false_eq_true, if_false, h1, Except.map]
+    cases h : mainLoop q (jm.widen js.nullWidth) A 0 { chain := buildChain q {} } with
     | error p => obtain ⟨e, st, n⟩ := p; rfl
     | ok p => obtain ⟨st, n⟩ := p; simp
 
@@ -77,5 +78,6 @@ theorem run_join_build_error (q : SemQuery) (A B : Table) (js : JoinSpec) (hj : 
   unfold run
   simp only [hg, Option.isSome_none, Bool.false_and, Bool.false_eq_true, if_false, hj]
   rw [joinMap_build_err js.rhs B e he]
+  rfl
 
 end Rbql
